@@ -11,7 +11,7 @@ pub fn meta() -> Meta {
     Meta {
         id: "C17",
         level: "exploration",
-        rule: "planted-SNP families through `ska build` + `ska lo` (CLI, --threads 1..4 and one of five -d / -n settings chosen per case, hash seeds owned by the shim: 2 quick / 3 thorough): ancestors of length 10k+1 whose (k-1)-mers are unique on both strands; k in {7,9,15,21,31,33} (thorough: every odd k in 7..33); sites = every non-empty subset of the grid {3k, 5k, 7k+1} (spacing exactly 2k and 2k+1, margins 3k); allele assignments = every biallelic split for n=3,4,5 samples, every triallelic assignment for n=3 (thorough: n=4) and carrier patterns for n=6,10 (thorough: 8); sample orientations; without reference and (k>=15) with the ancestor or (every second case) its reverse complement as reference (every third reference carrying a run of 2 or 6 N before the first site or at its start), the reference file laid out in one of four ways chosen per case (one line; lines of 60; lines of 70 with CRLF; header with description, lines of 50, no final newline); -m in {0, 0.1, 0.2}. Oracle without reference: the column multiset modulo whole-column complement equals the planted one. With reference: the same completeness of the SNP alignment, and every VCF record lies at a planted site, REF is the ancestor base, every given genotype decodes to that sample's true base, pseudo-genomes have the ancestor's length and agree with each sample at every called position. Longer ancestors (30k; k in {15,21,31}, three full ancestors and four (thorough 24) more with fewer assignments; arrangements also mirrored; the reference given in both orientations) with a dense run of three sites 2k apart plus one or two distant sites, every biallelic assignment for four samples, with and without reference. Sequence-end family (k in {7,15,31}): a site exactly k-1, k, k+1, 2k-1 bases from either end is called; sites closer than k-1 are not called by the pinned tool (listed in known_findings.txt). Repeated-arms family (k in {9,15,21,31,33}): the same two arms around 2..4 different middle bases (every ambiguity code of 2..4 bases stored in every sample), a planted site inside the arm of each copy in turn plus a distant one. Well-formedness family outside the premise (SNP pairs at every distance 1..2k, SNP next to an indel, three alleles at adjacent sites, a sample lacking a region): equal sequence lengths, >= 2 distinct A/C/G/T per column, missing fraction <= m. Cases whose derived samples break (k-1)-mer uniqueness are trivial and not judged for completeness. Every 48th case is repeated through the dev-profile build of the CLI (arithmetic overflow checks on) and must get the same verdict.".into(),
+        rule: "planted-SNP families through `ska build` + `ska lo` (CLI, --threads 1..4 and one of five -d / -n settings chosen per case, hash seeds owned by the shim: 2 quick / 3 thorough): ancestors of length 10k+1 whose (k-1)-mers are unique on both strands; k in {7,9,15,21,31,33} (thorough: every odd k in 7..33); sites = every non-empty subset of the grid {3k, 5k, 7k+1} (spacing exactly 2k and 2k+1, margins 3k); allele assignments = every biallelic split for n=3,4,5 samples, every triallelic assignment for n=3 (thorough: n=4) and carrier patterns for n=6,10 (thorough: 8); sample orientations; without reference and (k>=15) with the ancestor or (every second case) its reverse complement as reference (every third reference carrying a run of 2 or 6 N before the first site or at its start), the reference file laid out in one of four ways chosen per case (one line; lines of 60; lines of 70 with CRLF; header with description, lines of 50, no final newline); -m in {0, 0.1, 0.2}. Oracle without reference: the column multiset modulo whole-column complement equals the planted one. With reference: the same completeness of the SNP alignment, and every VCF record lies at a planted site, REF is the ancestor base, every given genotype decodes to that sample's true base, pseudo-genomes have the ancestor's length and agree with each sample at every called position. Longer ancestors (30k; k in {15,21,31}, three full ancestors and four (thorough 24) more with fewer assignments; arrangements also mirrored; the reference given in both orientations) with a dense run of three sites 2k apart plus one or two distant sites, every biallelic assignment for four samples, with and without reference. Long dense runs (k in {15,17,21}): 6, 8, 9, 10 and 12 sites exactly 2k apart, four (thorough 12) ancestors each, two assignments, with and without reference. Sequence-end family (k in {7,15,31}): a site exactly k-1, k, k+1, 2k-1 bases from either end is called; sites closer than k-1 are not called by the pinned tool (listed in known_findings.txt). Repeated-arms family (k in {9,15,21,31,33}): the same two arms around 2..4 different middle bases (every ambiguity code of 2..4 bases stored in every sample), a planted site inside the arm of each copy in turn plus a distant one. Well-formedness family outside the premise (SNP pairs at every distance 1..2k, SNP next to an indel, three alleles at adjacent sites, a sample lacking a region): equal sequence lengths, >= 2 distinct A/C/G/T per column, missing fraction <= m. Cases whose derived samples break (k-1)-mer uniqueness are trivial and not judged for completeness. Every 48th case is repeated through the dev-profile build of the CLI (arithmetic overflow checks on) and must get the same verdict.".into(),
         assumptions: vec!["hash-seed space is a declared finite set (2/3 seeds); thread counts are C11's".into(), "release-profile arithmetic (DESIGN §2)".into()],
         exhaustive_when_uncapped: true,
     }
@@ -391,6 +391,51 @@ pub fn run(ctx: &Ctx, rep: &mut Report) {
         }
         if !rep.capped {
             rep.completed.push("dense run plus distant sites".into());
+        }
+    }
+    // long dense runs: 6, 8, 9, 10 and 12 sites exactly 2k apart (groups of several SNPs overlap along the whole run),
+    // several ancestors per k, reference-free and with the ancestor as reference
+    if !rep.capped {
+        for k in [15usize, 17, 21] {
+            for m in [6usize, 8, 9, 10, 12] {
+                for member in 0..(if thorough { 12u64 } else { 4 }) {
+                    idx += 1;
+                    if !ctx.mine(idx) {
+                        continue;
+                    }
+                    let anc = lo::ancestor((2 * m + 6) * k, k, ctx.seed + 600 + 31 * member + m as u64);
+                    let sites: Vec<usize> = (0..m).map(|j| 3 * k + 2 * k * j).collect();
+                    let asg = assignments(4, false);
+                    for a0 in [member as usize, member as usize + 5] {
+                        let alleles: Vec<Vec<u8>> = (0..m).map(|j| asg[(a0 + j * 3) % asg.len()].clone()).collect();
+                        let c = SnpCase { k, ancestor: anc.clone(), sites: sites.clone(), alleles, flip: vec![false, a0 % 2 == 1, false, false] };
+                        for with_ref in [false, true] {
+                            rep.evaluations += 1;
+                            if with_ref {
+                                lo::REF_ORIENT.store(1, std::sync::atomic::Ordering::Relaxed);
+                            }
+                            let verdict = check(&c, with_ref, "0.1", ctx.seed, &dir);
+                            lo::REF_ORIENT.store(0, std::sync::atomic::Ordering::Relaxed);
+                            match verdict {
+                                Ok(true) => {
+                                    rep.nontrivial += 1;
+                                    rep.corner("long_dense_run");
+                                    rep.outcome(&(c.planted_columns(), with_ref, k));
+                                }
+                                Ok(false) => rep.corner("premise_not_met"),
+                                Err(e) if e.starts_with("MACHINERY") => rep.machinery(e),
+                                Err(e) => rep.violate(format!("dense run k={k} m={m} member={member} a0={a0} ref={with_ref}"), format!("k={k}, {m} sites exactly 2k apart, reference {}: {e}", if with_ref { "= ancestor" } else { "none" }), case_json(&c, with_ref, "0.1", ctx.seed)),
+                            }
+                        }
+                    }
+                    if ctx.expired() {
+                        rep.capped = true;
+                    }
+                }
+            }
+        }
+        if !rep.capped {
+            rep.completed.push("long dense runs".into());
         }
     }
     // sites near the sequence ends. The statement sets no margin; `ska lo` needs k-1 bases of context on both sides of a
